@@ -340,6 +340,22 @@ class ModelEval(Evaluator):
     def obj_getattr(self, obj, a, node=None):
         if a == "__class__":
             return Marker("pkg", obj._cls)
+        if "__nt__" in obj._attrs and a in ("_replace", "_asdict", "_fields"):
+            names = obj._attrs["__nt__"]
+            if a == "_fields":
+                return names
+            if a == "_asdict":
+                return Marker("pyfunc", lambda: {n: obj._attrs[n] for n in names})
+
+            def _replace(**kw):
+                new = PyObj(obj._cls)
+                new._attrs.update(obj._attrs)
+                for k, v in kw.items():
+                    if k not in names:
+                        raise Raised("ValueError", node, "Got unexpected field names: %r" % [k])
+                    new._attrs[k] = v
+                return new
+            return Marker("pyfunc", _replace)
         if a in obj._attrs:
             return obj._attrs[a]
         m = self.tree.method(obj._cls, a)
@@ -390,6 +406,11 @@ class ModelEval(Evaluator):
 
     # ------------------------------------------------------------------ subscripts / operators
     def subscript(self, node, base, index):
+        if isinstance(base, PyObj) and "__nt__" in base._attrs and self.tree.method(base._cls, "__getitem__") is None:
+            try:
+                return tuple(base._attrs[n] for n in base._attrs["__nt__"])[index]
+            except (IndexError, TypeError) as e:
+                raise Raised(type(e).__name__, node, str(e))
         if isinstance(base, PyObj):
             m = self.tree.method(base._cls, "__getitem__")
             if m is None:
@@ -558,6 +579,8 @@ class ModelEval(Evaluator):
         raise NeedAssumption(key)
 
     def iterate(self, v, node=None):
+        if isinstance(v, PyObj) and "__nt__" in v._attrs:
+            return [v._attrs[n] for n in v._attrs["__nt__"]]          # a typing.NamedTuple instance is a tuple of its fields
         if isinstance(v, PyObj):
             m = self.tree.method(v._cls, "__iter__")
             if m is not None:
@@ -660,6 +683,43 @@ class ModelEval(Evaluator):
                         return Marker("type", _collections.namedtuple(args[0], args[1], **{k_: v_ for k_, v_ in kwargs.items() if k_ in ("defaults", "rename")}))
                     except (TypeError, ValueError) as e:
                         raise Raised(type(e).__name__, node, str(e))
+                if h is None and func.data[0].startswith("itertools."):
+                    import itertools as _it
+                    nm = func.data[0][len("itertools."):]
+                    seqs = lambda xs: [self.iterate(x, node) for x in xs]
+                    if nm == "chain":
+                        return [y for x in seqs(args) for y in x]
+                    if nm == "chain.from_iterable" and len(args) == 1:
+                        return [y for x in self.iterate(args[0], node) for y in self.iterate(x, node)]
+                    if nm == "product":
+                        return [tuple(t) for t in _it.product(*seqs(args), repeat=kwargs.get("repeat", 1))]
+                    if nm == "islice" and args:
+                        return list(_it.islice(self.iterate(args[0], node), *args[1:]))
+                    if nm == "starmap" and len(args) == 2:
+                        return [self.call(node, args[0], list(self.iterate(t, node)), {}) for t in self.iterate(args[1], node)]
+                    if nm == "accumulate" and args:
+                        items, out_ = self.iterate(args[0], node), []
+                        fn_ = args[1] if len(args) > 1 else kwargs.get("func")
+                        acc, started = kwargs.get("initial"), "initial" in kwargs and kwargs["initial"] is not None
+                        if started:
+                            out_.append(acc)
+                        for x in items:
+                            if not started:
+                                acc, started = x, True
+                            else:
+                                acc = self.call(node, fn_, [acc, x], {}) if fn_ is not None else self.binop(node, ast.Add(), acc, x)
+                            out_.append(acc)
+                        return out_
+                    if nm == "repeat" and len(args) == 2 and isinstance(args[1], int):
+                        return [args[0]] * args[1]
+                    if nm == "zip_longest":
+                        return [tuple(t) for t in _it.zip_longest(*seqs(args), fillvalue=kwargs.get("fillvalue"))]
+                    if nm == "pairwise" and len(args) == 1:
+                        it_ = self.iterate(args[0], node)
+                        return list(zip(it_, it_[1:]))
+                    if nm in ("combinations", "permutations") and args:
+                        return [tuple(t) for t in getattr(_it, nm)(self.iterate(args[0], node), *args[1:])]
+                    raise Unsupported("library function %s is not modelled" % func.data[0])
                 if h is None and func.data[0] == "weakref.ref" and len(args) >= 1:
                     return WeakRef(args[0])
                 if h is None and func.data[0] == "contextlib.suppress":
@@ -784,6 +844,8 @@ class ModelEval(Evaluator):
             return Marker("type", type(v))
         if name == "len":
             v = args[0]
+            if isinstance(v, PyObj) and "__nt__" in v._attrs and self.tree.method(v._cls, "__len__") is None:
+                return len(v._attrs["__nt__"])
             if isinstance(v, PyObj):
                 m = self.tree.method(v._cls, "__len__")
                 if m is None:
@@ -892,11 +954,56 @@ class ModelEval(Evaluator):
             return False
         raise Unsupported("isinstance against %r" % (cls,))
 
+    def record_fields(self, cls):
+        """[(field, default expr or None)] of a typing.NamedTuple subclass or a @dataclass, else None"""
+        cached = getattr(cls, "_sa_record_fields", False)
+        if cached is not False:
+            return cached
+        kind = None
+        for b in cls.base_exprs:
+            if self.tree.dotted(cls.module, b) in ("typing.NamedTuple",):
+                kind = "namedtuple"
+        for d in cls.node.decorator_list:
+            f = d.func if isinstance(d, ast.Call) else d
+            if self.tree.dotted(cls.module, f) in ("dataclasses.dataclass",):
+                kind = "dataclass"
+        fields = None
+        if kind is not None:
+            fields = [(st.target.id, st.value) for st in cls.node.body if isinstance(st, ast.AnnAssign) and isinstance(st.target, ast.Name)]
+            fields = (kind, fields)
+        cls._sa_record_fields = fields
+        return fields
+
     def instantiate(self, cls, args, kwargs, node):
         obj = PyObj(cls)
         init = self.tree.method(cls, "__init__")
         if init is not None:
             self.invoke(init, [obj] + list(args), kwargs, node)
+            return obj
+        rec = self.record_fields(cls)
+        if rec is not None:
+            # the generated constructor of a typing.NamedTuple / dataclass: fields in declaration order, defaults from the class body
+            kind, fields = rec
+            names = [n for n, _ in fields]
+            if len(args) > len(names):
+                raise Raised("TypeError", node, "%s() takes %d positional arguments but %d were given" % (cls.name, len(names), len(args)))
+            vals = dict(zip(names, args))
+            for k, v in kwargs.items():
+                if k not in names or k in vals:
+                    raise Raised("TypeError", node, "%s() got an unexpected or repeated keyword argument %r" % (cls.name, k))
+                vals[k] = v
+            for n, dflt in fields:
+                if n not in vals:
+                    if dflt is None:
+                        raise Raised("TypeError", node, "%s() missing required argument %r" % (cls.name, n))
+                    vals[n] = ModelEval(self.tree, _ModuleCtx(cls.module), {}, self.hooks, self.depth + 1, self.shared).ev(dflt)
+            for n in names:
+                obj._attrs[n] = vals[n]
+            if kind == "namedtuple":
+                obj._attrs["__nt__"] = tuple(names)
+            post = self.tree.method(cls, "__post_init__")
+            if post is not None and kind == "dataclass":
+                self.invoke(post, [obj], {}, node)
         return obj
 
     MEMO_DECORATORS = ("functools.lru_cache", "functools.cache")
@@ -1225,9 +1332,11 @@ class ModelEval(Evaluator):
     def bind(self, target, value):
         if isinstance(target, (ast.Tuple, ast.List)):
             vals = self.iterate(value, target)
-            if len(vals) != len(target.elts):
+            from .peval import _split_starred
+            pairs = _split_starred(target.elts, vals)
+            if pairs is None:
                 raise Raised("ValueError", target, "cannot unpack %d values into %d targets" % (len(vals), len(target.elts)))
-            for t, v in zip(target.elts, vals):
+            for t, v in pairs:
                 self.bind(t, v)
             return
         if isinstance(target, ast.Name):
